@@ -136,7 +136,7 @@ def roundtrip(chk, d, idx, methods, header, cargs, default_hash):
         return Verdict(INCONCLUSIVE, name, "driver B watchdog")
     if not res:
         return Verdict(VIOLATED, name, "flags printed by command_line_flags() are rejected by the flag parser (exit %s): %s\nflags: %s" % (
-            rc, err[-400:], f1), files=files, obs=obs, signature=sig or classify_parse_failure(methods, err))
+            rc, err[-400:], f1), files=files, obs=obs, signature=sig or classify_parse_failure(methods, err, f1))
     rb = res["results"][0]
     f2 = rb.get("flags_out")
     problems = []
@@ -183,9 +183,13 @@ def roundtrip(chk, d, idx, methods, header, cargs, default_hash):
                    sample={"methods": methods, "flags": f1[:12]} if idx % 97 == 0 else None)
 
 
-def classify_parse_failure(methods, err):
+def classify_parse_failure(methods, err, f1=()):
     names = [m[0] for m in methods]
     if "with_codegen_config" in names and any(m[0] == "with_codegen_config" and m[1] == "" for m in methods):
+        return "c13.empty-codegen-config"
+    # the empty set reached by combination (with_codegen_config("functions") + ignore_functions()) is printed the same way
+    f1 = list(f1 or ())
+    if any(f1[k] == "--generate" and f1[k + 1] == "" for k in range(len(f1) - 1)) and "Unknown codegen item kind" in err:
         return "c13.empty-codegen-config"
     return None
 
